@@ -8,11 +8,11 @@ import vlib, gen_trace
 # which oracle kinds belong to which property (a check only reports its own kinds)
 KINDS = {
     "C01": {"overlap", "content", "usable", "strdup", "crash"},
-    "C03": {"align", "usable", "crash-aligned"},
+    "C03": {"align", "usable"},
     "C16": {"goodsize"},
     "C04": {"zero", "rezalloc-zero"},
-    "C05": {"realloc-content", "expand", "usable", "realloc-null"},
-    "C06": {"malformed", "posix", "errno", "fail"},
+    "C05": {"realloc-content", "expand", "usable", "realloc-null", "content"},   # content: live blocks (incl. the original of a failed re-allocation) intact
+    "C06": {"malformed", "posix", "errno", "fail", "content"},   # content: a failing call leaves every live block intact
     "C10": {"owner", "heap", "content", "overlap", "crash"},
     "C12": {"walk"},
     "C13": None,   # every kind
@@ -158,13 +158,18 @@ def run_traces(res, pid, plan, seed, dump=True, options=None, exe=None, tag="", 
         wit = "# trace for harness/t_api.c (replay: tools/check %s --replay <this file>)\n# oracle: %s %s\n%s" % (pid, kind, text, "\n".join(small))
         rname = "%s_%s_%s_%d.trace" % (pid, kind, profile, s)
         res.violation("impl:" + kind, "%s (profile %s seed %d, %d ops after shrinking): %s" % (kind, profile, s, len(small), text), witness=wit, replay_name=rname)
-    if mism and pid in ("C01", "C13"):
+    # page-model disagreements: every property reports the class of disagreement that concerns it (C01/C13: all of them)
+    def mclass(l):
+        return "walk" if "heap walk of page" in l else "direct" if "direct table law" in l else "page"
+    wanted = {"C01": {"page", "walk", "direct"}, "C13": {"page", "walk", "direct"}, "C12": {"walk"}, "C16": {"direct"}}.get(pid, set())
+    mine_m = [(path, l) for path, l in mism if mclass(l) in wanted]
+    if mine_m:
         has_wit = bool(mine)
-        path, l = mism[0]
+        path, l = mine_m[0]
         if not has_wit:
-            res.violation("corr:page", "page model / implementation disagreement in %d dumps, first: %s (trace %s)" % (len(mism), l, path), witness=None)
+            res.violation("corr:" + mclass(l), "page model / implementation disagreement in %d dumps, first: %s (trace %s)" % (len(mine_m), l, path), witness=None)
         else:
-            vlib.log("[corr] %d page-model disagreements, e.g. %s" % (len(mism), l))
+            vlib.log("[corr] %d page-model disagreements, e.g. %s" % (len(mine_m), l))
     res.cov["evaluations"] += stats["ops"]
     res.cov["traces_validated_against_impl"] += stats["traces"]
     res.cov["disagreements_checked"] += len(mism)
